@@ -28,6 +28,22 @@ pub fn ev(log: &Log, k: i64) -> Pay {
     Pay { k, s: format!("payload-{}", k) }
 }
 
+/// A node expression that keeps a guard (an exclusive borrow of the log) alive as a TEMPORARY of the
+/// expression itself: `held(log).ev(k)`.  The temporary dies at the end of the statement the macro puts the
+/// expression in - if that statement also evaluates another written expression, the second borrow fails.
+pub struct Held<'a>(std::cell::RefMut<'a, Vec<i64>>);
+
+pub fn held(log: &Log) -> Held<'_> {
+    Held(log.borrow_mut())
+}
+
+impl Held<'_> {
+    pub fn ev(&mut self, k: i64) -> Pay {
+        self.0.push(k);
+        Pay { k, s: format!("payload-{}", k) }
+    }
+}
+
 /// root expression of the NodeId form: logs the marker, returns the id
 pub fn rid(log: &Log, id: NodeId) -> NodeId {
     log.borrow_mut().push(ROOT_ID_MARK);
@@ -159,6 +175,30 @@ impl Harness {
         self.shapes.insert(expected.to_string());
         let Env { arena, log, pre, anchor, anchor_kids, free_before } = env;
         let log = log.into_inner();
+        // ---- allocation facts (C07), judged first and independently of everything else: free slots are used up
+        // before the arena grows, every written expression gives one more live node, no existing node changes
+        {
+            let live = |a: &Arena<Pay>| a.iter().filter(|n| !n.is_removed()).count();
+            let exp_count = pre.count() + nexpr.saturating_sub(free_before.len());
+            if arena.count() != exp_count {
+                self.fail(i, "alloc/count", format!("{} expressions written with {} free slots: count() went {} -> {}, expected {}", nexpr, free_before.len(), pre.count(), arena.count(), exp_count));
+            } else if live(&arena) != live(&pre) + nexpr {
+                self.fail(i, "alloc/live-count", format!("{} live nodes before, {} after, {} expressions written", live(&pre), live(&arena), nexpr));
+            } else {
+                let (ps, now) = (pre.as_slice(), arena.as_slice());
+                let anchor_slot = usize::from(anchor) - 1;
+                let anchor_last = pre[anchor].last_child().map(|c| usize::from(c) - 1);
+                for j in 0..ps.len().min(now.len()) {
+                    if ps[j].is_removed() || (id_form && (j == anchor_slot || Some(j) == anchor_last)) {
+                        continue;
+                    }
+                    if ps[j] != now[j] {
+                        self.fail(i, "alloc/existing-node-changed", format!("the node at position {} existed before the literal and is not its root; it changed", j + 1));
+                        break;
+                    }
+                }
+            }
+        }
         // ---- evaluation order / count
         let mut exp_log: Vec<i64> = vec![ARENA_MARK];
         if id_form {
